@@ -1,6 +1,6 @@
 import G3D.Extracted.Mpolygon
 import G3D.Proofs.MethodsTiePolygonShared
-/-! # Tie, group `mpolygon`, role EQUALITY (C08): `__eq__` = `Polygon.same` under the IDEALISATION `hash(a) == hash(b)` ↦ `pyHashEq`.  Conventions, trusted readings and the deviations found: `G3D.Proofs.MethodsTie`, header of `G3D.Model.PyRtM`. -/
+/-! # Tie, group `mpolygon`, role EQUALITY (C08): `__eq__` = `Polygon.same` (the body compares vertex lists and planes; translated loop by loop).  Conventions, trusted readings and the deviations found: `G3D.Proofs.MethodsTie`, header of `G3D.Model.PyRtM`. -/
 set_option linter.unusedSimpArgs false
 set_option linter.unusedVariables false
 set_option linter.style.nameCheck false
@@ -9,11 +9,27 @@ set_option linter.unreachableTactic false
 namespace G3D.Tie
 open V3 PyRt Extracted
 
-/-- IDEALISATION: `hash(self) == hash(other)` is read as the model's `Polygon.same` (`pyHashEq`) -/
+/-- `ConvexPolygon.__eq__` (the vertex lists contain each other and the carrier planes are equal) IS the model's
+    `Polygon.same`; no idealisation of hashes is involved any more (repair D12: `==` used to compare hashes) -/
 theorem m_ConvexPolygon___eq___eq (P Q : Polygon) :
     m_ConvexPolygon___eq__ (Self.ofPolygon P) (.obj (.polygon Q)) = .ok (.bool (P.same Q)) := by
   unfold m_ConvexPolygon___eq__
-  simp [pyPack_ConvexPolygon_of, pyrt, pyHashEq, objHashable, objSame]
+  simp only [pyrt, Self.ofPolygon, Val.ptSeq, List.forIn_map, pyInM_pt_seq, pyAttr_points, pyAttr_plane]
+  simp [forIn_return]
+  by_cases h1 : ∀ a ∈ P.pts, a ∈ Q.pts
+  · by_cases h2 : ∀ a ∈ Q.pts, a ∈ P.pts
+    · have e1 : P.pts.all (· ∈ Q.pts) = true := by simpa using h1
+      have e2 : Q.pts.all (· ∈ P.pts) = true := by simpa using h2
+      rw [if_pos h1, if_pos h2]
+      simp [Polygon.same, e1, e2, pyrt, plObj, pyEqM]
+    · have e2 : Q.pts.all (· ∈ P.pts) = false := by
+        rw [List.all_eq_false]; push Not at h2; obtain ⟨a, ha, hb⟩ := h2; exact ⟨a, ha, by simpa using hb⟩
+      rw [if_pos h1, if_neg h2]
+      simp [Polygon.same, e2]
+  · have e1 : P.pts.all (· ∈ Q.pts) = false := by
+      rw [List.all_eq_false]; push Not at h1; obtain ⟨a, ha, hb⟩ := h1; exact ⟨a, ha, by simpa using hb⟩
+    rw [if_neg h1]
+    simp [Polygon.same, e1]
 
 theorem m_ConvexPolygon___eq___other (P : Polygon) (l : Line) :
     m_ConvexPolygon___eq__ (Self.ofPolygon P) (.obj (lnObj l)) = .ok (.bool false) := by
